@@ -238,7 +238,7 @@ theorem frames_are_traceback_frames_in_order (o : Opts) (isFirst fromDec : Bool)
         simp [visible, List.filter_cons]; split <;> simp
       rw [hv, List.map_append, unmarked_fr, callerFrames]
       split
-      · simp [unmarked_fr]
+      · simp [unmarked_fr, parentOnlyFrames_eq]
       · split
         · simp [markLast_fr]
         · simp [unmarked_fr]
@@ -315,5 +315,38 @@ theorem shared_flag_never_recovers (uses : List Use) :
     | nil => rfl
     | cons u us ih => cases u <;> simp [runUsesShared, useStepShared, Gen.catchWrapperFlag, List.replicate_succ] <;> exact ih
   simp [runUsesShared, useStepShared, Gen.catchWrapperFlag, List.replicate_succ, key]
+
+/-! ### the one calling frame of a decorator use, when loguru's own frames sit above the wrapper -/
+
+theorem visible_hidden_prefix (pre : List Frame) (hpre : ∀ f ∈ pre, f.hidden = true) (rest : List Frame) :
+    visible (pre ++ rest) = visible rest := by
+  induction pre with
+  | nil => rfl
+  | cons f fs ih =>
+    have hf : f.hidden = true := hpre f (List.mem_cons_self ..)
+    have := ih (fun g hg => hpre g (List.mem_cons_of_mem _ hg))
+    simp [visible, hf] at this ⊢
+    exact this
+
+/-- **decorator_caller_is_first_foreign_frame**: with `catch()` as a decorator and `backtrace = false`
+the one calling frame is the first caller that is not loguru's own – however many loguru frames
+(outer catch wrappers, `_log` evaluating a lazy argument or a patcher, `Catcher.__exit__` calling
+`onerror`) lie between it and the catching wrapper -/
+theorem decorator_caller_is_first_foreign_frame (o : Opts) (isFirst : Bool) (hb : o.backtrace = false)
+    (own : List Frame) (hown : ∀ f ∈ own, f.hidden = true) (p : Frame) (hp : p.hidden = false)
+    (above : List Frame) :
+    callerFrames o isFirst true (own ++ p :: above) = [p] := by
+  simp only [callerFrames, hb, Bool.not_false, Bool.and_self, if_true]
+  rw [visible_hidden_prefix own hown]
+  simp [visible, hp]
+
+/-- the refuted shape (seeded change C13-i: the `break` outside the visibility test looks at the
+immediate caller only): one loguru frame above the wrapper and the calling frame is lost -/
+theorem immediate_caller_only_loses_frame (own p : Frame) (ho : own.hidden = true) (hp : p.hidden = false)
+    (above : List Frame) :
+    visible ((own :: p :: above).take 1) = [] ∧ (visible (own :: p :: above)).take 1 = [p] := by
+  simp [visible, ho, hp]
+
+theorem parent_walk_skips_hidden : Gen.parentWalkSkipsHidden = true := by decide
 
 end C13
